@@ -6,5 +6,5 @@ export PYTHONHASHSEED=0 PYTHONPATH="${VERIF_REPO:-/repo}" PYTHONDONTWRITEBYTECOD
 mkdir -p .work evidence replay
 /venv/bin/python -m harness.regen_all 2> >(grep -v 'conda.cli.condarc' >&2)
 cd coq
-timeout 3000 make -j16 2>&1 | tail -5
+timeout 3000 make -k -j16 2>&1 | tail -5
 echo setup done
